@@ -63,3 +63,18 @@ package retention
 //@   ensures [metrics-vs-log-ordered-by-true-age] implies(isdyn((*allEntries)[i], *structs.MetricsMeta) && isdyn((*allEntries)[j], *structs.SegMeta), result == (msOfMetrics((*allEntries)[i].(*structs.MetricsMeta)) < (*allEntries)[j].(*structs.SegMeta).LatestEpochMS))
 //@   ensures [log-vs-metrics-ordered-by-true-age] implies(isdyn((*allEntries)[i], *structs.SegMeta) && isdyn((*allEntries)[j], *structs.MetricsMeta), result == ((*allEntries)[i].(*structs.SegMeta).LatestEpochMS < msOfMetrics((*allEntries)[j].(*structs.MetricsMeta))))
 //@ end
+
+// C14, volume-based pass: victims are taken (oldest first) while they fit into
+// the volume that still has to be freed, and what a victim frees is subtracted
+// from that remainder.  The remainder is unsigned, so the quantity tested and
+// the quantity subtracted must be the same one — a victim's received bytes are
+// below the remainder at the moment it is chosen — or the remainder wraps and
+// every newer segment "fits".
+//@ func doVolumeBasedDeletion
+//@   props C14
+//@   assumecalleerequires
+//@   site mapupdate metricSegmentsToDelete[entry.MSegmentDir] #1:
+//@     assert [a-metrics-victim-fits-into-what-is-left-to-free] entry.BytesReceivedCount < volumeToDeleteInBytes
+//@   site mapupdate segmentsToDelete[entry.SegmentKey] #1:
+//@     assert [a-log-victim-fits-into-what-is-left-to-free] entry.BytesReceivedCount < volumeToDeleteInBytes
+//@ end
